@@ -64,6 +64,43 @@ def judge(c, progs, source, twins=None):
     return raw, opt, ref
 
 
+def shrink_failures(c):
+    """shrink the first failing program (and its fully parenthesised twin in lockstep) to a few statements"""
+    import shrink
+    for f in c.failures[:1]:
+        case = f["case"]
+        if "program" not in case or "reference" not in case:
+            continue
+        twin = case.get("reference_ran_on")
+        twin = case["program"] if (not twin or twin == "the same text") else twin
+
+        def differs(variants):
+            ps, ts = [v[0] for v in variants], [v[1] for v in variants]
+            opt = E.run_impl(ps, "opt")
+            raw = E.run_impl(ts, "raw")
+            idx = [i for i in range(len(ps)) if "tree" in opt[i] and "tree" in raw[i]]
+            ref = E.run_model("spec", [raw[i]["tree"] for i in idx])
+            res = [False] * len(ps)
+            for k, i in enumerate(idx):
+                ro, rr = E.split_model(ref[k])
+                if ro is None or rr.startswith("UNSUP") or rr.startswith("FUEL"):
+                    continue
+                res[i] = E.canon_obs(opt[i]["out"], opt[i]["res"]) != E.canon_obs(ro, rr)
+            return res
+        try:
+            small = shrink.shrink([case["program"], twin], differs)
+        except Exception as ex:
+            case["shrink_error"] = str(ex)[:200]
+            continue
+        if len(small[0]) < len(case["program"]):
+            case["original_program"] = case["program"]
+            case["program"], case["reference_ran_on"] = small[0], small[1]
+            o = E.run_impl([small[0]], "opt")[0]
+            r = E.run_impl([small[1]], "raw")[0]
+            m = E.run_model("spec", [r["tree"]])[0]
+            case["implementation"], case["reference"] = E.canon_obs(o["out"], o["res"]), E.canon_obs(*E.split_model(m))
+
+
 def check(tier, seed):
     c = vlib.Check("C03", tier, seed)
     c.level = "translation_validation"
@@ -86,6 +123,7 @@ def check(tier, seed):
     c.dist.update({"construct:" + k: v for k, v in stats.items()})
     for k in (0, len(progs) // 2, len(progs) - 1):
         c.sample({"program": progs[k][:600], "implementation": opt[k].get("res", opt[k].get("parse_error"))[:200]})
+    shrink_failures(c)
     return c.finish()
 
 
